@@ -81,7 +81,7 @@ type deriveM struct{ pkg, recv, name string }
 
 func checkC07(c *Ctx) {
 	c.Rule("R7.1", "derive methods are pure: no store through the receiver (transitively), result fresh or the untouched receiver", 24)
-	c.Rule("R7.2", "no aliasing append onto receiver-owned slices in derive methods", 1)
+	c.Rule("R7.2", "no aliasing append onto receiver-owned slices in derive methods", 0)
 	c.Rule("R7.3", "encoder clone owns a fresh buffer holding a copy of the parent's bytes; ioCore.With adds fields to the clone only", 4)
 	c.Rule("R7.4", "wrapper cores forward With to the wrapped core with the same fields and copy every other field", 8)
 	c.Rule("R7.5", "names: empty segment returns the receiver, join with \".\", name copied into the entry", 4)
@@ -107,6 +107,9 @@ func checkC07(c *Ctx) {
 		deriveM{SlogPath, "Handler", "WithAttrs"}, deriveM{SlogPath, "Handler", "WithGroup"})
 	for _, d := range list {
 		fn := c.Method(d.pkg, d.recv, d.name)
+		if fn == nil && d.name == "clone" {
+			continue // private clone helpers may be inlined into their only caller
+		}
 		if !c.Anchor("R7.1", d.pkg+"."+d.recv+"."+d.name, fn != nil) {
 			continue
 		}
@@ -213,21 +216,37 @@ func c7Clone(c *Ctx) {
 		c.Check(okCopy, "R7.3", cln.String(), "copies-context-bytes", cln.Pos(), "Clone writes the parent's accumulated context bytes into the clone's own buffer")
 	}
 	iw := c.Method(CorePath, "ioCore", "With")
-	ic := c.Method(CorePath, "ioCore", "clone")
 	ioc := c.Named(CorePath, "ioCore")
-	if c.Anchor("R7.3", "zapcore.ioCore.With/clone", iw != nil && ic != nil && ioc != nil) {
+	if c.Anchor("R7.3", "zapcore.ioCore.With", iw != nil && ioc != nil) {
+		rc := iw.Params[0].Name()
+		// the derived core: a fresh ioCore whose encoder is a clone of the receiver's, sharing sink and enabler
+		got := map[string]string{}
+		var encVal ssa.Value
+		Bound(func() {
+			for _, f := range Region(iw) {
+				for _, st := range FieldStoresOf(f, ioc) {
+					if IsFresh(st.Addr.X) {
+						got[st.Field] = Desc(st.Instr.Val)
+						if st.Field == "enc" {
+							encVal = st.Instr.Val
+						}
+					}
+				}
+			}
+		})
+		c.Check(got["enc"] == "Clone("+rc+".enc)" && got["out"] == rc+".out" && got["LevelEnabler"] == rc+".LevelEnabler", "R7.3", iw.String(), "clone-fields", iw.Pos(), "the derived core has a cloned encoder and the same sink and enabler (%v)", got)
 		okAdd := false
-		for _, call := range Calls(iw) {
+		for _, call := range CallsDeep(iw) {
 			if IsCallTo(call, "go.uber.org/zap/zapcore.addFields") {
-				okAdd = Desc(Args(call)[0]) == "clone(c).enc" && Strip(Args(call)[1]) == ssa.Value(iw.Params[1])
+				a0 := Args(call)[0]
+				var d string
+				Bound(func() { d = Desc(a0) })
+				// the encoder that receives the fields is the clone stored in the new core
+				same := encVal != nil && (Strip(a0) == Strip(encVal) || d == Desc(encVal) || strings.HasSuffix(d, ".enc") && strings.HasPrefix(d, "clone("))
+				okAdd = same && Strip(Args(call)[1]) == ssa.Value(iw.Params[1])
 			}
 		}
-		c.Check(okAdd, "R7.3", iw.String(), "fields-into-clone", iw.Pos(), "With serialises the new fields into the clone's encoder, never the receiver's")
-		got := map[string]string{}
-		for _, st := range FieldStoresOf(ic, ioc) {
-			got[st.Field] = Desc(st.Instr.Val)
-		}
-		c.Check(got["enc"] == "Clone(c.enc)" && got["out"] == "c.out" && got["LevelEnabler"] == "c.LevelEnabler", "R7.3", ic.String(), "clone-fields", ic.Pos(), "the cloned core has a cloned encoder and the same sink and enabler (%v)", got)
+		c.Check(okAdd, "R7.3", iw.String(), "fields-into-clone", iw.Pos(), "With serialises the new fields into the cloned encoder, never the receiver's")
 	}
 }
 
@@ -319,7 +338,9 @@ func c7Wrappers(c *Ctx) {
 		for _, s := range FieldStoresOf(cw, co) {
 			got[s.Field] = Desc(s.Instr.Val)
 		}
-		ok := got["LevelEnabler"] == "co.LevelEnabler" && got["logs"] == "co.logs" && strings.HasPrefix(got["context"], "append(co.context[:len(co.context):len(co.context)], fields")
+		ctxOK := strings.HasPrefix(got["context"], "append(co.context[:len(co.context):len(co.context)], fields") ||
+			strings.HasPrefix(got["context"], "append(append(make([]zapcore.Field), co.context") && strings.Contains(got["context"], "), fields")
+		ok := got["LevelEnabler"] == "co.LevelEnabler" && got["logs"] == "co.logs" && ctxOK
 		c.Check(ok, "R7.4", cw.String(), "rewrap-complete", cw.Pos(), "the derived observer shares enabler and log store and owns context = capped-append(parent context, fields) (%v)", got)
 	}
 }
@@ -335,33 +356,22 @@ func c7Names(c *Ctx) {
 			}
 		}
 		c.Check(okEmpty, "R7.5", fn.String(), "empty-segment", fn.Pos(), "an empty name segment returns the receiver unchanged")
-		// stores to name: s under log.name == "", Join([...], ".") otherwise
+		// the clone's name: s for an unnamed parent, parent.name + "." + s otherwise (any spelling of the join)
 		okFirst, okJoin := false, false
+		rcv, seg := fn.Params[0].Name(), fn.Params[1].Name()
 		for _, st := range FieldStoresOf(fn, c.Named(ZapPath, "Logger")) {
 			if st.Field != "name" {
 				continue
 			}
-			atoms := AtomStrings(Guards(st.Instr))
-			d := Desc(st.Instr.Val)
-			for _, a := range atoms {
-				if a == `log.name == ""` && d == "s" {
+			for _, alt := range valueAlternatives(st.Instr.Val, st.Instr.Block()) {
+				d := Desc(alt.val)
+				unnamed := containsS(alt.conds, rcv+`.name == ""`)
+				named := containsS(alt.conds, rcv+`.name != ""`)
+				switch {
+				case unnamed && d == seg:
 					okFirst = true
-				}
-				if a == `log.name != ""` && strings.HasPrefix(d, "Join(") && strings.HasSuffix(d, `, ".")`) {
+				case named && (d == "(("+rcv+`.name + ".") + `+seg+")" || strings.HasPrefix(d, "Join(") && strings.HasSuffix(d, `, ".")`) && joinParts(fn, seg)):
 					okJoin = true
-					// joined parts: clone's name (copied from log) and s
-					var parts []string
-					AllInstrs(fn, func(i ssa.Instruction) {
-						if s2, ok := i.(*ssa.Store); ok {
-							if ia, ok := s2.Addr.(*ssa.IndexAddr); ok {
-								if idx, ok := ConstInt(ia.Index); ok {
-									parts = append(parts, itoa(int(idx))+":"+Desc(s2.Val))
-								}
-							}
-						}
-					})
-					sort.Strings(parts)
-					okJoin = len(parts) == 2 && strings.HasSuffix(parts[0], ".name") && parts[1] == "1:s"
 				}
 			}
 		}
@@ -399,7 +409,7 @@ func c7Lazy(c *Ctx) {
 			continue
 		}
 		var ic ssa.Instruction
-		for _, cl := range Calls(fn) {
+		for _, cl := range CallsDeep(fn) {
 			if StaticCallee(cl) == init {
 				ic = cl
 			}
@@ -428,4 +438,46 @@ func c7Lazy(c *Ctx) {
 	}
 	c.Check(n == 1 && okVal, "R7.6", init.String(), "evaluates-once", init.Pos(), "the Once closure performs exactly one store: core = originalCore.With(fields)")
 	_ = token.NoPos
+}
+
+type valAlt struct {
+	val   ssa.Value
+	conds []string
+}
+
+// valueAlternatives resolves a value that is a phi (conditional assignment)
+// into its alternatives with the conditions of the incoming edges; a non-phi
+// value has one alternative under the guards of the using block.
+func valueAlternatives(v ssa.Value, at *ssa.BasicBlock) []valAlt {
+	ph, ok := v.(*ssa.Phi)
+	if !ok {
+		return []valAlt{{v, AtomStrings(GuardsOfBlock(at))}}
+	}
+	var out []valAlt
+	for j, e := range ph.Edges {
+		pred := ph.Block().Preds[j]
+		conds := append(AtomStrings(GuardsOfBlock(pred)), AtomStrings(edgeAtoms(pred, ph.Block()))...)
+		if inner, isPhi := e.(*ssa.Phi); isPhi && inner != ph {
+			out = append(out, valueAlternatives(inner, pred)...)
+			continue
+		}
+		out = append(out, valAlt{e, conds})
+	}
+	return out
+}
+
+// joinParts: the strings.Join argument list is [<receiver or clone>.name, seg].
+func joinParts(fn *ssa.Function, seg string) bool {
+	var parts []string
+	AllInstrs(fn, func(i ssa.Instruction) {
+		if s2, ok := i.(*ssa.Store); ok {
+			if ia, ok := s2.Addr.(*ssa.IndexAddr); ok {
+				if idx, ok := ConstInt(ia.Index); ok {
+					parts = append(parts, itoa(int(idx))+":"+Desc(s2.Val))
+				}
+			}
+		}
+	})
+	sort.Strings(parts)
+	return len(parts) == 2 && strings.HasSuffix(parts[0], ".name") && parts[1] == "1:"+seg
 }
